@@ -123,6 +123,20 @@ def runtime_table_integrity(cov, fail):
     from ssh_audit.ssh2_kexdb import SSH2_KexDB
     from ssh_audit.ssh1_kexdb import SSH1_KexDB
     snap2, snap1 = copy.deepcopy(SSH2_KexDB.MASTER_DB), copy.deepcopy(SSH1_KexDB.MASTER_DB)
+    from ssh_audit.builtin_policies import BUILTIN_POLICIES
+    from ssh_audit.hostkeytest import HostKeyTest
+    from ssh_audit.dheat import DHEat
+    other_tables = {'BUILTIN_POLICIES': BUILTIN_POLICIES, 'HOST_KEY_TYPES': HostKeyTest.HOST_KEY_TYPES, 'RSA_FAMILY': HostKeyTest.RSA_FAMILY, 'DHEat.alg_priority': DHEat.alg_priority,
+                    'DHEat.gex_algs': DHEat.gex_algs, 'DHEat.alg_modulus_sizes': DHEat.alg_modulus_sizes}
+    snap_other = copy.deepcopy(other_tables)
+    # policy scans with built-in policies against targets that add unlisted pseudo-algorithms / drift: evaluating a policy must not write into the policy table
+    for pname in [n for n in BUILTIN_POLICIES if BUILTIN_POLICIES[n]['server_policy']][-3:]:
+        pl = copy.deepcopy(BUILTIN_POLICIES[pname])
+        pl['kex'] = list(pl['kex'] or []) + ['kex-strict-s-v01@openssh.com', 'ext-info-s', 'zz-new-kex@example.org']
+        pl['macs'] = ['hmac-sha1'] + list(pl['macs'] or [])
+        for extra in ([], ['-j']):
+            fn.run_main(['-n', '--skip-rate-test', '-P', pname] + extra + ['10.3.3.5'], fn.FakeNet({'10.3.3.5': policy_server(pl)}), fresh=False)
+            cov.add(('runtime-policy-tables', pname, tuple(extra)), True, tags=['runtime-integrity'])
     srv = fn.simple_server(kex=('diffie-hellman-group-exchange-sha256', 'diffie-hellman-group-exchange-sha1', 'curve25519-sha256'),
                            key=('rsa-sha2-512', 'ssh-rsa', 'ssh-ed25519'), enc=('chacha20-poly1305@openssh.com', 'aes128-cbc'),
                            mac=('hmac-sha2-256-etm@openssh.com', 'hmac-sha1'), banner=b'SSH-2.0-OpenSSH_8.0',
@@ -164,6 +178,26 @@ def runtime_table_integrity(cov, fail):
             bad = [(c, n) for c in snap for n in snap[c] if live.get(c, {}).get(n) != snap[c][n]]
             c, n = bad[0] if bad else ('?', '?')
             fail('tables_changed_at_runtime', where, '%s/%s' % (c, n), live.get(c, {}).get(n) if isinstance(live, dict) else None, snap[c][n] if bad else 'unchanged tables')
+    def relevant(name, table, ref):
+        # loading a built-in policy fills in default CA fields / an empty raw key in its size records (in place, idempotent): not a change of what the table says
+        if name != 'BUILTIN_POLICIES':
+            return table
+        out = {}
+        for pn, pol in table.items():
+            q = dict(pol)
+            if isinstance(q.get('hostkey_sizes'), dict):
+                q['hostkey_sizes'] = {k: {kk: vv for kk, vv in v.items() if kk in ref[pn]['hostkey_sizes'].get(k, {})} for k, v in q['hostkey_sizes'].items()}
+            out[pn] = q
+        return out
+    for name, live_t in other_tables.items():
+        if relevant(name, live_t, snap_other[name]) != snap_other[name]:
+            keys = [k for k in snap_other[name] if isinstance(snap_other[name], dict) and live_t.get(k) != snap_other[name][k]]
+            fail('tables_changed_at_runtime', name, str(keys[0]) if keys else name, str(live_t.get(keys[0]) if keys else live_t)[:300], 'unchanged tables')
+            if isinstance(live_t, dict):
+                live_t.clear()
+                live_t.update(snap_other[name])
+            else:
+                live_t[:] = snap_other[name]
     fn.reset_dbs()
     # restore the tables so that the remaining checks see the import-time values even if the property is violated
     if SSH2_KexDB.MASTER_DB != snap2:
